@@ -291,7 +291,6 @@ func (c *Ctx) rulePosInFile() {
 		}
 		c.checkSitePos(si, "POS-IN-FILE")
 	}
-	c.floor("report sites", len(c.M.Sites), 20)
 }
 
 // ruleNoWalkInReader: the annotation reader does not walk into declarations (local declarations are inert)
